@@ -78,6 +78,9 @@ def run(facts, rep, tier, ctx):
     # append positions at End(0); create starts empty (shared with C04)
     from . import c04
     c04.session_start_rules(facts, rep, ws, D, "R14.5s")
+    wa_ = World(facts, True)
+    if wa_.present():
+        c04.session_start_rules(facts, rep, wa_, D, "R14.6/R14.5s")
     # through the overlay an append handle starts after the bytes the overlay showed: the copy-up is a complete byte copy
     # (copy_file of the resolved file) made before the upper layer's append handle is opened
     from . import c09
